@@ -232,7 +232,10 @@ class HierDictDocument(DictDocument):
                                                 errors=cls_attrs.unicode_errors)
 
                     elif isinstance(inst, six.binary_type):
-                        retval = self.unicode_from_bytes(cls, inst)
+                        try:
+                            retval = self.unicode_from_bytes(cls, inst)
+                        except UnicodeDecodeError:
+                            raise ValidationError([key, inst])
 
                     else:
                         retval = inst
